@@ -248,6 +248,19 @@ def attempt(ctx, data, pk, tmp, fmt, label, h):
     again = rset.get_resource(URI(path))
     if again is not res:
         ctx.violate({'clause': 'not-idempotent', 'format': fmt}, f'asking twice for the same URI returned two resources', rep)
+    # the same file under the other spellings a path has (what a relative href joined to a directory looks like)
+    d, b = os.path.split(path)
+    for how, spelled in (('./', os.path.join(d, '.', b)), ('dir/../dir/', os.path.join(d, '..', os.path.basename(d), b)),
+                         ('doubled separator', d + os.sep + os.sep + b), ('relative to the working directory', os.path.relpath(path))):
+        try:
+            again = rset.get_resource(URI(spelled))
+        except Exception as e:
+            again = f'raised {type(e).__name__}'
+        ctx.count('asked-again/' + how)
+        if again is not res:
+            ctx.violate({'clause': 'not-idempotent', 'format': fmt, 'spelling': how},
+                        f'asking for the same file again, spelled with {how}, returned {"another resource" if not isinstance(again, str) else again}', rep)
+            break
 
 
 
